@@ -254,6 +254,24 @@ def _work(job):
 
 def replay(rep):
     inp = rep['input']
+    if inp[0] == 'frame':
+        print('replay %s: a write site in the call graph (frame analysis): %s' % (rep['obligation'], rep.get('call')))
+        from pyvc.frames import purity_sites
+        import importlib
+        mod, fn = inp[1].rsplit('.', 1)
+        bad = bool(purity_sites([getattr(real_module(mod), fn)])[0])
+        print('VIOLATION reproduced' if bad else 'not reproduced on this tree')
+        return 1 if bad else 0
+    if inp[0] == 'tyhistory':
+        class _R(object):
+            v = []
+            def record(self, *a, **k): pass
+            def violation(self, name, d, bad): self.v.append(d)
+        r_ = _R()
+        tyrving_history(r_)
+        print('replay %s: %r' % (rep['obligation'], r_.v[:1]))
+        print('VIOLATION reproduced' if r_.v else 'not reproduced on this tree')
+        return 1 if r_.v else 0
     if inp[0] == 'bulgarian':
         _, ag, g, ev, k = inp
         bg = real_module('athlib.bulgarian_score')
@@ -282,6 +300,37 @@ def replay(rep):
     return 1 if bad else 0
 
 
+def tyrving_history(run):
+    """bounded: electronically timed marks of one event scored in one process with hand-timed marks in between stay monotone (a
+    faster time never scores fewer points) and equal their own score in a fresh sequence"""
+    ty = real_module('athlib.tyrving_score')
+    bad = None
+    n = 0
+    for g, age, ev in (('F', 12, '100'), ('M', 15, '200'), ('F', 14, '60'), ('M', 13, '400')):
+        try:
+            marks = [k / 100 for k in range(1100, 7000, 37)]
+            clean = {m: ty.tyrving_score(g, age, ev, '%.2f' % m) for m in marks[:40]}
+            prev = None
+            for i, m in enumerate(marks[:40]):
+                if i % 3 == 1:
+                    ty.tyrving_score(g, age, ev, '%.1f' % m)          # a hand-timed mark in between
+                pts = ty.tyrving_score(g, age, ev, '%.2f' % m)
+                n += 1
+                if pts != clean[m] or (prev is not None and pts > prev):
+                    bad = (g, age, ev, '%.2f' % m, pts, clean[m])
+                    break
+                prev = pts
+        except Exception:
+            continue
+        if bad:
+            break
+    name = 'history/tyrving-points-of-an-electronic-mark-do-not-depend-on-earlier-hand-timed-marks'
+    run.record(name, 'ground', 'refuted' if bad else 'proved', 'ground-evaluation', 0.0, 'history')
+    if bad:
+        run.violation(name, dict(call='tyrving_score(%r,%r,%r,%r) after a hand-timed mark of the same event' % bad[:4], observed=bad[4], required=bad[5],
+                                 input=['tyhistory'] + list(bad[:4])), True)
+
+
 def main(tier, seed):
     run = report.Run(PROP, tier, seed)
     run.expected_min_obligations = 3000
@@ -294,6 +343,12 @@ def main(tier, seed):
     qk = real_module('athlib.qkids_score')
     sh = real_module('athlib.sportshall_score')
     h = real_module('athlib.hungarian_score')
+    # monotonicity is a statement about a FUNCTION of the mark: no scorer keeps anything from one call to the next (a calculator
+    # cached with its timing kind, a table rewritten by an option ... would make the points depend on what was scored before)
+    from pyvc.frames import frame_obligations
+    frame_obligations(run, [ty.tyrving_score, qk.qkids_score, sh.sportshall_score, h.score, real_module('athlib.bulgarian_score').score,
+                            real_module('athlib.athlon_score').score])
+    tyrving_history(run)
     J_ = []
     for g in sorted(ty._tyrvingTables):
         for ev in ty._tyrvingTables[g]:
